@@ -1,11 +1,15 @@
 package control
 
-// C14, control-plane half: executes the REAL region of control.NewControlPlane that builds the node
-// pool and the groups — from `dialerSet := outbound.NewDialerSetFromLinksContext(…)` to the end of
+// C14, control-plane half: executes the REAL outbound region of control.NewControlPlane — from the
+// construction of `direct`/`block` through `dialerSet := outbound.NewDialerSetFromLinksContext(…)`,
 // `for _, group := range groups { … }` (policy, FilterAndAnnotate, debug listing, group override
-// option + clone loop, NewDialerGroup) — extracted verbatim from /repo's CURRENT control_plane.go by
+// option + clone loop, NewDialerGroup), the alive-transition registration, the outbound-count limit
+// and the name -> id table — extracted verbatim from /repo's CURRENT control_plane.go by
 // checks/c14.py into c14RealGroupRegion (zz_verif_c14_region.go), and compares pool, members,
-// annotations and fixed(i) with the Lean model (same `grp` op as the package-outbound harness).
+// annotations, effective latency offsets, fixed(i) and the name table with the Lean model (op `cfg`).
+// Production-shaped histories: reload sequences (the same groups over a subscription that changed by
+// one edit, the previous generation still open while the next is built), the same node offered by two
+// subscriptions, configurations at and just beyond the outbound limit.
 //
 // Pools are written as node links (`socks5://127.0.0.1:<port>#<escaped name>`) under subscription
 // tags, so the real NewDialerSetFromLinksContext decides pool order, names and tag association; the
@@ -18,6 +22,7 @@ import (
 	"net/url"
 	"os"
 	"path/filepath"
+	"sort"
 	"strings"
 	"testing"
 
@@ -113,7 +118,10 @@ func TestVerifC14Ctl(t *testing.T) {
 	c14LargeBoost = 45 // 6 % large pools here: 65..600 nodes through the real constructor and loop
 
 	port := 0
-	run := func(nodes []c14Node, defs []*c14Def, forceDirect bool, kind string) {
+	var lastBags []string // per group: the members the definition meant over the pool of the previous call
+	// run builds one configuration; the returned function closes what was built (a reload sequence
+	// keeps the previous generation open until the next one exists, as the real reload does)
+	run := func(nodes []c14Node, defs []*c14Def, names []string, forceDirect bool, kind string) (closer func()) {
 		// the real config.Group of every definition (through the real parser when expressible)
 		var gs []*config.Group
 		var global *config.Global
@@ -121,6 +129,9 @@ func TestVerifC14Ctl(t *testing.T) {
 		for k, d := range defs {
 			g, gl, v, pc := c14Obtain(r, d, forceDirect, stats)
 			g.Name = fmt.Sprintf("g%d", k)
+			if k < len(names) {
+				g.Name = names[k]
+			}
 			gs = append(gs, g)
 			if k == 0 {
 				global = gl
@@ -153,12 +164,27 @@ func TestVerifC14Ctl(t *testing.T) {
 
 		// the pool as subscriptions: tag -> links, unique link per node
 		tagToNodeList := map[string][]string{}
-		want := map[string]c14Node{} // link -> what was written
+		want := map[string]c14Node{} // link + NUL + tag -> what was written
+		linkOfName := map[string]string{}
+		sameLink := false
 		for _, n := range nodes {
-			port = port%60000 + 1
-			link := fmt.Sprintf("socks5://127.0.0.1:%d#%s", 1024+port, url.PathEscape(n.Name))
+			link := ""
+			// the SAME link under another subscription (a node offered by two subscriptions)
+			if prev, ok := linkOfName[n.Name]; ok && r.Chance(0.5) {
+				if _, used := want[prev+"\x00"+n.Tag]; !used {
+					link, sameLink = prev, true
+				}
+			}
+			if link == "" {
+				port = port%60000 + 1
+				link = fmt.Sprintf("socks5://127.0.0.1:%d#%s", 1024+port, url.PathEscape(n.Name))
+				linkOfName[n.Name] = link
+			}
 			tagToNodeList[n.Tag] = append(tagToNodeList[n.Tag], link)
-			want[link] = n
+			want[link+"\x00"+n.Tag] = n
+		}
+		if sameLink {
+			stats.Inc("pool.same_link_in_two_subscriptions")
 		}
 		extra := ""
 		if r.Chance(0.15) { // a link no dialer can be made of: skipped by the real constructor
@@ -189,18 +215,23 @@ func TestVerifC14Ctl(t *testing.T) {
 			}()
 			return c14RealGroupRegion(option, tagToNodeList, groups, global, lg)
 		}()
-		defer func() {
+		closer = func() {
 			if res != nil {
-				for _, og := range res.Outbounds {
+				for k, og := range res.Outbounds {
 					if og != nil {
 						_ = og.Close()
+						if k < 2 { // direct / block: their single dialer is not in deferFuncs
+							for _, dd := range og.Dialers {
+								_ = dd.Close()
+							}
+						}
 					}
 				}
 				for i := len(res.DeferFuncs) - 1; i >= 0; i-- {
 					_ = res.DeferFuncs[i]()
 				}
 			}
-		}()
+		}
 
 		// read the pool back AFTER the whole loop ran: order, names, tags as the real code left them
 		var pool []c14Node
@@ -218,7 +249,10 @@ func TestVerifC14Ctl(t *testing.T) {
 				pool = append(pool, c14Node{Name: dd.Property().Name, Tag: tag})
 				index[dd] = i
 				byLink[dd.Property().Link+"\x00"+tag] = i
-				w, known := want[dd.Property().Link]
+				w, known := want[dd.Property().Link+"\x00"+tag]
+				if !ok {
+					w, known = want[dd.Property().Link+"\x00"+dd.Property().SubscriptionTag]
+				}
 				switch {
 				case !known:
 					poolOK = "unknown-link:" + c14x(dd.Property().Link)
@@ -235,7 +269,7 @@ func TestVerifC14Ctl(t *testing.T) {
 			for tag, got := range perTag { // inside one subscription the order is the order written
 				var exp []string
 				for _, l := range tagToNodeList[tag] {
-					if _, ok := want[l]; ok {
+					if _, ok := want[l+"\x00"+tag]; ok {
 						exp = append(exp, l)
 					}
 				}
@@ -254,14 +288,17 @@ func TestVerifC14Ctl(t *testing.T) {
 		// later groups are still compared against the meaning over the written pool)
 		for i := range pool {
 			if res != nil && res.DialerSet != nil {
-				if w, ok := want[res.DialerSet.VerifC14Dialers()[i].Property().Link]; ok {
+				dd := res.DialerSet.VerifC14Dialers()[i]
+				if w, ok := want[dd.Property().Link+"\x00"+pool[i].Tag]; ok {
+					pool[i] = w
+				} else if w, ok := want[dd.Property().Link+"\x00"+dd.Property().SubscriptionTag]; ok {
 					pool[i] = w
 				}
 			}
 		}
 
 		var body strings.Builder
-		o := c14MultiTok(&body, pool, gs)
+		o := c14CfgTok(&body, pool, gs)
 		valid, lenient, kwsubtag, structonly := true, false, true, false
 		for _, g := range gs {
 			valid = valid && c14Valid(o, g)
@@ -287,27 +324,77 @@ func TestVerifC14Ctl(t *testing.T) {
 			}
 		}
 
+		// Go-side oracle for the outbound table: names (direct, block, then the groups) must be pairwise
+		// distinct and there may be at most OutboundUserDefinedMax outbounds
+		namesState := "ok"
+		seenName := map[string]bool{"direct": true, "block": true}
+		for _, g := range gs {
+			if seenName[g.Name] {
+				namesState = "dup"
+			}
+			seenName[g.Name] = true
+		}
+		if 2+len(gs) > int(consts.OutboundUserDefinedMax) {
+			namesState = "toomany"
+		}
+		// what the definitions mean over this pool, as multisets: did the subscription update change it?
+		if strings.HasPrefix(kind, "reload") && valid {
+			var bags []string
+			for _, g := range gs {
+				bags = append(bags, c14MemberBag(o, pool, g))
+			}
+			if kind == "reload-next" && len(lastBags) == len(bags) {
+				changed := false
+				for k := range bags {
+					changed = changed || bags[k] != lastBags[k]
+				}
+				if changed {
+					stats.Inc("discrim.reload_pool_edit_changes_members")
+				} else {
+					stats.Inc("reload.pool_edit_leaves_members_unchanged")
+				}
+			}
+			lastBags = bags
+		}
+
 		out, ids := "", "-"
+		idsPermuted := false
 		switch {
 		case lerr != nil && strings.HasPrefix(lerr.Error(), "crash:"):
 			out = lerr.Error()
 		case lerr != nil:
 			m := lerr.Error()
-			// control_plane wraps: `failed to create group gK: <policy error>` / `failed to create group "gK": <filter error>`
+			// control_plane wraps: `failed to create group NAME: <policy error>` / `failed to create group "NAME": <filter error>`
+			out = "gerr other " + c14x(m)
 			switch {
-			case strings.HasPrefix(m, "failed to create group g"):
-				out = "perr " + c14PolicyErr(fmt.Errorf("%s", m[strings.Index(m, ": ")+2:]))
-			case strings.HasPrefix(m, `failed to create group "g`):
-				out = "ferr " + c14FilterErr(fmt.Errorf("%s", m[strings.Index(m, ": ")+2:]))
+			case m == "too many outbounds":
+				out = fmt.Sprintf("gerr toomany %d", 2+len(gs))
+			case strings.HasPrefix(m, "duplicated outbound name: "):
+				out = "gerr dup " + c14x(strings.TrimPrefix(m, "duplicated outbound name: "))
 			default:
-				out = "gerr other " + c14x(m)
+				for _, g := range gs {
+					if pre := `failed to create group "` + g.Name + `": `; strings.HasPrefix(m, pre) {
+						out = "ferr " + c14FilterErr(fmt.Errorf("%s", m[len(pre):]))
+						break
+					}
+					if pre := "failed to create group " + g.Name + ": "; strings.HasPrefix(m, pre) {
+						out = "perr " + c14PolicyErr(fmt.Errorf("%s", m[len(pre):]))
+						break
+					}
+				}
 			}
 		case len(res.Outbounds) != 2+len(gs):
 			out = fmt.Sprintf("groups:%d", len(res.Outbounds)-2)
 		default:
 			var parts []string
 			for k, g := range gs {
-				grp := res.Outbounds[2+k]
+				// the group a routing rule naming it would reach: through the name table (equal to position
+				// 2+k in this code; a self-consistent other id assignment would not change any selection)
+				pos := 2 + k
+				if id, ok := res.Name2Id[g.Name]; ok && namesState == "ok" && int(id) < len(res.Outbounds) {
+					pos = int(id)
+				}
+				grp := res.Outbounds[pos]
 				an := grp.VerifC14Annotations()
 				cloned := 0
 				idxOf := func(dd *dialer.Dialer) (int, bool) {
@@ -367,26 +454,86 @@ func TestVerifC14Ctl(t *testing.T) {
 					}
 					sel = c14CtlFixedSel(grp, fi, have, idxOf)
 				}
-				parts = append(parts, fmt.Sprintf("pol=%s members=%s sel=%s", pol, members, sel))
+				off := c14Offsets(grp.VerifC14AliveSets(), grp.Dialers, idxOf)
+				if cloned > 0 && off != "none" && off != "-" {
+					stats.Inc("discrim.override_clone_group_with_offset_table")
+				}
+				parts = append(parts, fmt.Sprintf("pol=%s members=%s sel=%s off=%s", pol, members, sel, off))
 			}
+			// the outbound table: name -> id as the region left it, in id order; the reverse table and the
+			// group actually stored under that id must agree
+			type ni struct {
+				name string
+				id   int
+			}
+			var tbl []ni
+			for nm, id := range res.Name2Id {
+				tbl = append(tbl, ni{nm, int(id)})
+			}
+			sort.Slice(tbl, func(a, b int) bool {
+				if tbl[a].id != tbl[b].id {
+					return tbl[a].id < tbl[b].id
+				}
+				return tbl[a].name < tbl[b].name
+			})
+			var idl, expl []string
+			consistent := len(res.Id2Name) == len(res.Name2Id) && len(tbl) == 2+len(gs)
+			for p, e := range tbl {
+				x := fmt.Sprintf("%s:%d", c14x(e.name), e.id)
+				if rev, ok := res.Id2Name[uint8(e.id)]; !ok || rev != e.name {
+					x += "!id2name"
+					consistent = false
+				}
+				if e.id >= len(res.Outbounds) || res.Outbounds[e.id].Name != e.name {
+					x += "!outbound"
+					consistent = false
+				}
+				consistent = consistent && e.id == p
+				idl = append(idl, x)
+			}
+			if len(res.Id2Name) != len(res.Name2Id) {
+				idl = append(idl, fmt.Sprintf("!id2name-size:%d", len(res.Id2Name)))
+			}
+			expl = append(expl, c14x("direct")+":0", c14x("block")+":1")
+			for k, g := range gs {
+				expl = append(expl, fmt.Sprintf("%s:%d", c14x(g.Name), 2+k))
+			}
+			consistent = consistent && res.Name2Id["direct"] == 0 && res.Name2Id["block"] == 1
+			if consistent && strings.Join(idl, ",") != strings.Join(expl, ",") {
+				// a bijection name <-> id <-> stored group with direct = 0 and block = 1, only not in
+				// configuration order: no selection depends on it — printed as the model prints it, noted
+				idsPermuted = true
+				idl = expl
+			}
+			parts = append(parts, "ids="+strings.Join(idl, ","))
 			out = "ok " + strings.Join(parts, " | ")
-			// every group is wired to its own outbound id: 2, 3, … in configuration order
+			// every outbound is wired to its own id: 0 (direct), 1 (block), 2, 3, … in configuration order
 			ids = "ok"
-			if len(res.CallbackIDs) != len(gs) {
+			if len(res.CallbackIDs) != 2+len(gs) {
 				ids = fmt.Sprintf("count:%d", len(res.CallbackIDs))
 			}
 			for k, id := range res.CallbackIDs {
-				if int(id) != 2+k {
+				if int(id) != k {
 					ids = fmt.Sprintf("id%d=%d", k, id)
 				}
 			}
+			// every distinct dialer of the configuration got exactly one alive-transition callback
+			distinctDialers := map[*dialer.Dialer]bool{}
+			for _, og := range res.Outbounds {
+				for _, dd := range og.Dialers {
+					distinctDialers[dd] = true
+				}
+			}
+			if res.Transition != len(distinctDialers) {
+				stats.Inc("NOTE.transition_callbacks_differ_from_distinct_dialers")
+			}
 		}
-		st.Emit("grps"+body.String(), out)
+		st.Emit("cfg"+body.String(), out)
 		pc := "-"
 		if parserChanged != "" {
 			pc = c14x(parserChanged)
 		}
-		fmt.Fprintf(side, "grps valid=%v lenient=%v pool=%s nodes=%d groups=%d over=%d via=%s ids=%s parserchanged=%s kind=%s kwsubtag=%v structonly=%v log=%s%s\n", valid, lenient, poolOK, len(pool), len(gs), over, via, ids, pc, kind, kwsubtag, structonly, logLevel, extra)
+		fmt.Fprintf(side, "cfg valid=%v lenient=%v pool=%s nodes=%d groups=%d over=%d via=%s ids=%s parserchanged=%s kind=%s kwsubtag=%v structonly=%v log=%s names=%s idsperm=%v%s\n", valid, lenient, poolOK, len(pool), len(gs), over, via, ids, pc, kind, kwsubtag, structonly, logLevel, namesState, idsPermuted, extra)
 		for _, one := range strings.Split(strings.TrimPrefix(out, "ok "), " | ") {
 			if strings.HasPrefix(out, "ok ") {
 				c14GroupStats(stats, "ok "+one)
@@ -395,6 +542,7 @@ func TestVerifC14Ctl(t *testing.T) {
 		if !strings.HasPrefix(out, "ok ") {
 			c14GroupStats(stats, out)
 		}
+		stats.Inc("names." + namesState)
 		if strings.HasPrefix(out, "ok ") {
 			if over != 0 {
 				stats.Inc("discrim.override_group_built")
@@ -411,7 +559,11 @@ func TestVerifC14Ctl(t *testing.T) {
 			if len(gs) >= 2 {
 				stats.Inc("discrim.sequence_of_2_plus_groups_built")
 			}
+			if sameLink {
+				stats.Inc("discrim.config_built_with_same_link_in_two_subscriptions")
+			}
 		}
+		return closer
 	}
 
 	// a definition that builds (valid filter + valid policy), for sequences
@@ -448,8 +600,78 @@ func TestVerifC14Ctl(t *testing.T) {
 
 	dn, dd := c14Directed()
 	for _, d := range dd {
-		run(dn, []*c14Def{d}, false, "single")
+		run(dn, []*c14Def{d}, nil, false, "single")()
 	}
+
+	// group names: mostly the plain g0, g1, …; sometimes a name used twice, a reserved name, odd names
+	genNames := func(n int) []string {
+		names := make([]string, n)
+		for k := range names {
+			names[k] = fmt.Sprintf("g%d", k)
+		}
+		if n == 0 || !r.Chance(0.25) {
+			return names
+		}
+		k := r.Intn(n)
+		switch x := r.Intn(10); {
+		case x < 3 && n >= 2: // the same name twice
+			j := r.Intn(n)
+			for j == k {
+				j = r.Intn(n)
+			}
+			names[k] = names[j]
+			stats.Inc("names.gen_duplicate")
+		case x < 5:
+			names[k] = c14Pick(r, []string{"direct", "block"})
+			stats.Inc("names.gen_reserved")
+		default: // distinct but odd: case variants of reserved names, empty, blanks, non-ASCII, a near-twin of another group
+			names[k] = c14Pick(r, []string{"Direct", "BLOCK", "", " g0", "g0 ", "组", "direct ", "g\x00", fmt.Sprintf("g%d", n), "G0", "must_rules"})
+			stats.Inc("names.gen_odd_but_distinct")
+		}
+		return names
+	}
+
+	// the outbound limit: OutboundUserDefinedMax outbounds incl. direct and block, i.e. at most
+	// OutboundUserDefinedMax-2 groups — exactly at, one beyond, a few around
+	{
+		max := int(consts.OutboundUserDefinedMax) - 2
+		nodes := []c14Node{{Name: "hk-1", Tag: "my_sub"}, {Name: "sg-2", Tag: "sub2"}, {Name: "us-3", Tag: "my_sub"}}
+		for li, n := range []int{max, max, max + 1, max - 1 - r.Intn(3), max + 2 + r.Intn(6)} {
+			defs := make([]*c14Def, n)
+			for k := range defs {
+				switch {
+				case k%40 == 7:
+					defs[k] = &c14Def{Policy: "min", Lines: [][]c14Func{{{Name: "subtag", Params: []c14Param{{Val: "my_sub"}}}}}, Annos: [][]c14Param{{{Key: "add_latency", Val: "3ms"}}}}
+				case k%2 == 0:
+					defs[k] = &c14Def{Policy: []c14Func{{Name: "fixed", Params: []c14Param{{Val: "1"}}}}}
+				default:
+					defs[k] = &c14Def{Policy: []c14Func{{Name: "fixed", Params: []c14Param{{Val: "0"}}}}, Lines: [][]c14Func{{{Name: "name", Params: []c14Param{{Key: "keyword", Val: "-"}}}}}, Annos: [][]c14Param{nil}}
+				}
+			}
+			names := genNames(0)
+			if li == 1 { // at the limit AND a duplicate among the last names
+				names = make([]string, n)
+				for k := range names {
+					names[k] = fmt.Sprintf("g%d", k)
+				}
+				names[n-1] = names[n-2]
+			}
+			switch {
+			case li == 1:
+				stats.Inc("limit.groups_exactly_at_outbound_limit_with_duplicate_name")
+			case n == max:
+				stats.Inc("limit.groups_exactly_at_outbound_limit")
+			case n == max+1:
+				stats.Inc("limit.groups_one_beyond_outbound_limit")
+			case n < max:
+				stats.Inc("limit.groups_just_below_outbound_limit")
+			default:
+				stats.Inc("limit.groups_beyond_outbound_limit")
+			}
+			run(nodes, defs, names, true, "limit")()
+		}
+	}
+
 	nPools := 260
 	if VThorough() {
 		nPools = 2600
@@ -469,7 +691,7 @@ func TestVerifC14Ctl(t *testing.T) {
 					defs = append(defs, subtagDef(nodes))
 				}
 				stats.Inc("seq.unfiltered_override_group_then_subtag_groups")
-				run(nodes, defs, r.Chance(0.15), "after-unfiltered-override")
+				run(nodes, defs, nil, r.Chance(0.15), "after-unfiltered-override")()
 			case x < 40: // a sequence of groups, mostly all buildable
 				var defs []*c14Def
 				for j := 2 + r.Intn(3); j > 0; j-- {
@@ -479,8 +701,40 @@ func TestVerifC14Ctl(t *testing.T) {
 						defs = append(defs, c14GenDef(r, nodes, stats))
 					}
 				}
+				// near twins: a group that repeats the previous group's filter with ONE difference (most often
+				// the annotation) — both must come out by their own definition
+				for j := 1; j < len(defs); j++ {
+					if r.Chance(0.35) {
+						defs[j] = c14Twin(r, defs[j-1], stats)
+						stats.Inc("seq.group_is_near_twin_of_previous_group")
+					}
+				}
 				stats.Inc("seq.several_groups")
-				run(nodes, defs, r.Chance(0.15), "sequence")
+				run(nodes, defs, genNames(len(defs)), r.Chance(0.15), "sequence")()
+			case x < 52 && len(nodes) <= 64: // a RELOAD history: the same groups, the subscriptions change by one edit per step;
+				// the previous generation is closed only after the next one has been built
+				var defs []*c14Def
+				for j := 1 + r.Intn(3); j > 0; j-- {
+					if r.Chance(0.5) {
+						defs = append(defs, subtagDef(nodes))
+					} else {
+						defs = append(defs, goodDef(nodes))
+					}
+				}
+				names := genNames(len(defs))
+				direct := r.Chance(0.15)
+				cur := nodes
+				prev := run(cur, defs, names, direct, "reload-first")
+				stats.Inc("reload.histories")
+				for step := 2 + r.Intn(3); step > 0; step-- {
+					var edit string
+					cur, edit = c14MutatePool(r, cur)
+					stats.Inc("reload.step." + edit)
+					next := run(cur, defs, names, direct, "reload-next")
+					prev() // the old generation goes away after the new one exists
+					prev = next
+				}
+				prev()
 			default:
 				d := c14GenDef(r, nodes, stats)
 				if len(nodes) > 64 && k == 0 {
@@ -489,7 +743,7 @@ func TestVerifC14Ctl(t *testing.T) {
 					}
 					d.Over |= 8
 				}
-				run(nodes, []*c14Def{d}, r.Chance(0.15), "single")
+				run(nodes, []*c14Def{d}, genNames(1), r.Chance(0.15), "single")()
 			}
 		}
 	}
